@@ -84,6 +84,11 @@ def history(draw):
     mkind = draw(st.sampled_from(["none", "none", "requirements.txt", "pyproject.toml", "setup.py", "setup.cfg"]))
     if mode == "adders" and mkind == "none":
         mkind = "requirements.txt"
+    if mode == "adders" and mkind in ("setup.py", "requirements.txt") and draw(st.booleans()):
+        # setup.py is the manifest and a source file at once: a later codemod of the run rewrites what the
+        # dependency writer has just written
+        mkind = "setup.py+site"
+        seq = [c for c in seq if c != "pixee:python/use-set-literal"] + ["pixee:python/use-set-literal"]
     unusable = draw(st.lists(st.sampled_from(sorted(UNUSABLE)), max_size=2, unique=True)) if draw(st.integers(0, 3)) == 0 else []
     return {"sequence": seq, "files": files, "manifest": [mkind, draw(st.sampled_from(["lf", "lf", "crlf", "nofinalnl"])), unusable],
             # a file no codemod can parse (every codemod of the run that visits it reports it as failed)
@@ -162,7 +167,7 @@ def eval_history(case, stats=None):
         for cs in r.get("changeset", []):
             touched.setdefault(cs["path"], set()).add(r["codemod"])
     n_with_cs = sum(1 for r in ra_results if r.get("changeset"))
-    manifest_touched = any(p.rsplit("/", 1)[-1] in MANIFESTS for p in touched)
+    manifest_touched = any(p.rsplit("/", 1)[-1] in [m.split("+")[0] for m in MANIFESTS] for p in touched)
     nontriv = (n_with_cs >= 2 and any(len(v) >= 2 for v in touched.values())) or manifest_touched
     if any(len(v) >= 2 for v in touched.values()):
         labels.append("file-touched-by>=2")
